@@ -608,6 +608,7 @@ def run_c15(ctx):
     scs += ranged('times', 0, 86400, 5400, sd, step=5 if quick else 1)
     scs += ranged('encdays', 15079, 65536, 4096, sd, step=3 if quick else 1)
     scs += ranged('enctimes', 0, 86400, 10800, sd, step=11 if quick else 1)
+    scs += [{'sid': 'dvb-enchist-%d' % i, 'kind': 'dvb', 'part': 'enchist', 'seed': sd * 31 + i, 'lo': 0, 'hi': 300 if quick else 3000} for i in range(4 if quick else 16)]
     scs += ranged('dur16', 0, 10000, 2500, sd)
     scs += ranged('dur24', 0, 1000000, 62500, sd, step=13 if quick else 1)
     scs += ranged('raw16', 0, 65536, 8192, sd)
@@ -616,7 +617,7 @@ def run_c15(ctx):
     return pipeline(
         ctx, 'Mon_C15', 'dvb', scs,
         rule='decode: every MJD 15079..65535 at 00:00:00, 12:45:00, 23:59:59; every 5th (quick) / every second of the day on 7 days; encode: every 3rd '
-             '(quick) / every day at 3 times, every 11th / every second on 4 days; all 10^4 hh:mm and every 13th / all 10^6 hh:mm:ss BCD durations; all '
+             '(quick) / every day at 3 times followed by its neighbouring days and the day again, random walks over neighbouring days with decodes interleaved, every 11th / every second on 4 days; all 10^4 hh:mm and every 13th / all 10^6 hh:mm:ss BCD durations; all '
              '2^16 and every 997th / 5th of the 2^24 raw patterns; duration encoding for every 37th / every value up to 99:59:59. Expected values by '
              'TLC from the Annex C integer formulas (validated against a calendar walk) and digit-wise BCD',
         exhaustive=False,
